@@ -242,6 +242,21 @@ def merge_order_for(ctx, F, rid):
     merges the two scans must compare their keys as paths"""
     types_ = sorted({re.sub(r'<.*$', '', i['self']) for i in F.impls if i['trait'].startswith('std::iter::Iterator') and i['self'].startswith('reconcile::')})
     if not types_:
+        rb = work_body(F, 'reconcile::reconcile', ['reconcile::reconcile_path']) or F.body('reconcile::reconcile')
+        if rb is not None:
+            for xb in [rb] + [x for x in F.nested('reconcile::reconcile') if x.path != rb.path]:
+                xfl = flow_of(xb)
+                peeks = xfl.calls(lambda c: c.endswith('::peekable') or c.endswith('::peek'))
+                for cb_, ct_ in xfl.calls(lambda c: c in ('std::cmp::Ord::cmp', 'std::cmp::PartialOrd::partial_cmp', 'std::cmp::PartialOrd::lt', 'std::cmp::PartialOrd::le',
+                                                         'std::cmp::PartialOrd::gt', 'std::cmp::PartialOrd::ge')):
+                    tys = ' '.join(xb.local_ty(a['p']['l']) for a in ct_['args'] if a['k'] != 'const')
+                    if ('Path' in tys or 'OsStr' in tys) and ('Path' not in tys or any(o.kind == 'call' and str(o.key).split('::')[-1] in RAW_VIEWS for a in ct_['args'] if a['k'] != 'const' for o in xfl.origins(a))):
+                        ctx.bad(rid, 'reconcile:merge-order', 'reconcile merges the two scans and compares their keys as raw bytes / strings (the maps iterate in Path order, where `report/draft.md` < `report.txt`): '
+                                'around such a pair a path present on both sides is decided twice - an edit is overwritten by the old bytes and then deleted, a divergent pair loses one version', term_loc(xb, cb_))
+                        return
+                    if ('Path' in tys or 'OsStr' in tys) and peeks:
+                        ctx.undecided(rid, 'reconcile merges the two scans itself (keys compared as paths): that every path is decided exactly once is not decided')
+                        return
         ctx.ok(rid, 'reconcile:no-merge-pass', 'reconcile looks every path of the union up in both scans (no merge pass)', None)
         return
     raw = merge_order_raw(F, types_)
@@ -356,8 +371,22 @@ def reconcile_rule(ctx, F):
     for o in it_o:
         if o.kind == 'agg' and any(i['trait'].startswith('std::iter::Iterator') and re.sub(r'<.*$', '', i['self']) == re.sub(r'::[^:]+$', '', str(o.key)) for i in F.impls):
             custom_iter.append(re.sub(r'::[^:]+$', '', str(o.key)))
+    # .. or the merge pass written out in reconcile itself: two peekable walks whose heads are compared
+    inline_merge = None
+    if not custom_iter:
+        for xb in [b] + [x for x in F.nested('reconcile::reconcile') if x.path != b.path]:
+            xfl = flow_of(xb)
+            for cb_, ct_ in xfl.calls(lambda c: c in ('std::cmp::Ord::cmp', 'std::cmp::PartialOrd::partial_cmp', 'std::cmp::PartialOrd::lt', 'std::cmp::PartialOrd::le',
+                                                     'std::cmp::PartialOrd::gt', 'std::cmp::PartialOrd::ge')):
+                tys = ' '.join(xb.local_ty(a['p']['l']) for a in ct_['args'] if a['k'] != 'const')
+                if 'Path' in tys or 'OsStr' in tys:
+                    raw_ = 'Path' not in tys or any(o.kind == 'call' and str(o.key).split('::')[-1] in RAW_VIEWS for a in ct_['args'] if a['k'] != 'const' for o in xfl.origins(a))
+                    if inline_merge is None or raw_:
+                        inline_merge = (xb, cb_, raw_)
+        if inline_merge is not None and fl.calls(lambda c: c.endswith('::peekable') or c.endswith('::peek')):
+            custom_iter = ['a merge pass over both scans']
     if custom_iter:
-        raw = merge_order_raw(F, custom_iter)
+        raw = merge_order_raw(F, custom_iter) if inline_merge is None else ((inline_merge[0], inline_merge[1]) if inline_merge[2] else None)
         if raw is not None:
             rb_, rbb_ = raw
             ctx.bad('C18.R4', 'reconcile:merge-order', 'reconcile walks the two scans in one merge pass and compares the heads as raw bytes / strings: the maps iterate in Path (component) '
